@@ -302,6 +302,14 @@ def c06(m, obs, mech):
     tm = {indep.tid(t["path"]): t for t in m["tasks"]}
     for tid, mt in tm.items():
         o = obs.T.get(tid)
+        if o and not o["sch"] and not mt["container"] and obs.per_task.get(tid):
+            # "all work booked for a task lies inside its reported [start, end]": a task reported as NOT scheduled has no
+            # interval at all, so nothing may be booked for it (known finding failed-task-leftover: the bookings of an
+            # attempt that was given up stay in the ledgers)
+            u = obs.per_task[tid]
+            out.append(V("C06", "work-booked-for-unscheduled-task", dict(task=tid, resources=sorted(u), slots=sum(len(x) for x in u.values()),
+                                                                         seconds=round(sum(sum(x.values()) for x in u.values()), 3)), ["failed-task-leftover"]))
+            continue
         if not o or not o["sch"] or mt["container"]:
             continue
         st, en = o["start"], o["end"]
